@@ -1382,11 +1382,27 @@ def _reach_unbound(cfg, rn, dnodes, avoid):
                 for h in s_.succ:
                     if h.kind == "handler" and h.id not in seen and \
                             id(h) not in avoid_ids:
+                        # a handler that sets a variable may be setting the
+                        # flag under which the name is not read later on
+                        # (``except E: ok = False`` ... ``if not ok:
+                        # return``): correlated in a way no path argument
+                        # here follows - no verdict through that handler
+                        hb = getattr(h.ast, "body", []) or []
+                        if any(isinstance(x, ast.Name) and
+                               isinstance(x.ctx, ast.Store)
+                               for b_ in hb for x in ast.walk(b_)):
+                            continue
                         seen.add(h.id)
                         stack.append(h)
                 continue
             if id(s_) in avoid_ids:
                 continue
+            if s_.kind == "handler":
+                hb = getattr(s_.ast, "body", []) or []
+                if any(isinstance(x, ast.Name) and
+                       isinstance(x.ctx, ast.Store)
+                       for b_ in hb for x in ast.walk(b_)):
+                    continue        # (see above: a flag may be set there)
             seen.add(s_.id)
             stack.append(s_)
     return rn.id in seen
@@ -1911,7 +1927,8 @@ def findings(program, modules):
     out = []
     stats = {"functions": 0, "calls": 0, "classes": 0}
     for mname in modules:
-        m = program.modules.get(mname)
+        m = program.full(mname) if hasattr(program, "full") else \
+            program.modules.get(mname)
         if m is None:
             continue
         for line, nm, q in undef(program, m):
